@@ -771,6 +771,7 @@ class SQLModel:
     union_all_term_end: str
     known_methods: Optional[Set[data_algebra.data_ops_types.MethodUse]]
     recommended_methods: Optional[Set[data_algebra.data_ops_types.MethodUse]]
+    string_backslash_escapes: bool = False  # True for dialects that read backslash escapes inside string literals
 
     def __init__(
         self,
@@ -862,6 +863,12 @@ class SQLModel:
         Quote a string value.
         """
         assert isinstance(string, str)
+        if self.string_backslash_escapes:
+            # dialects whose string literals use backslash escapes (MySQL, BigQuery, Spark): a doubled quote is not (only) an escape there
+            escaped = string.replace("\\", "\\\\")
+            escaped = escaped.replace(self.string_quote, "\\" + self.string_quote)
+            escaped = escaped.replace("\n", "\\n").replace("\r", "\\r")
+            return self.string_quote + escaped + self.string_quote
         # replace all string quotes with doubled string quotes
         return (
             self.string_quote
